@@ -16,6 +16,9 @@ pub enum COp {
     Add(Order),
     Match { qty: u64, taker: OrderId },
     Cancel(OrderId),
+    /// a move away from the level: 1 = UpdatePrice, 2 = UpdatePriceAndQuantity, 3 = Replace, each
+    /// with a price different from the level's (same contract as a cancel)
+    Move(OrderId, u8),
     Amend { id: OrderId, qty: u64 },
     /// 0 = aggregates, 1 = snapshot, 2 = listing
     Read(u8),
@@ -27,6 +30,7 @@ impl COp {
             COp::Add(o) => format!("add {}", model::short(o)),
             COp::Match { qty, .. } => format!("match {}", qty),
             COp::Cancel(id) => format!("cancel {:x}", model::key(id) >> 64),
+            COp::Move(id, how) => format!("move#{} {:x}", how, model::key(id) >> 64),
             COp::Amend { id, qty } => format!("amend {:x} -> {}", model::key(id) >> 64, qty),
             COp::Read(k) => format!("read#{}", k),
         }
@@ -34,7 +38,7 @@ impl COp {
     pub fn target(&self) -> Option<u128> {
         match self {
             COp::Add(o) => Some(model::key(&model::id_of(o))),
-            COp::Cancel(id) | COp::Amend { id, .. } => Some(model::key(id)),
+            COp::Cancel(id) | COp::Move(id, _) | COp::Amend { id, .. } => Some(model::key(id)),
             _ => None,
         }
     }
@@ -185,7 +189,13 @@ pub fn gen_program(rng: &mut Rng, cfg: &ProgCfg) -> Program {
                     qty: rng.range(1, 14),
                     taker: model::oid(9_000 + (ti * 10 + oi) as u64),
                 },
-                2 => COp::Cancel(target),
+                2 => {
+                    if rng.chance(1, 5) {
+                        COp::Move(target, 1 + rng.below(3) as u8)
+                    } else {
+                        COp::Cancel(target)
+                    }
+                }
                 3 => COp::Amend {
                     id: target,
                     qty: if rng.chance(1, 8) { 0 } else { rng.range(1, 12) },
@@ -240,6 +250,27 @@ fn apply(level: &PriceLevel, idgen: &UuidGenerator, op: &COp) -> CRes {
                 .map(|o| o.map(|a| *a))
                 .map_err(|e| e.to_string()),
         ),
+        COp::Move(id, how) => {
+            let other = level.price() + 1;
+            let u = match how {
+                1 => OrderUpdate::UpdatePrice {
+                    order_id: *id,
+                    new_price: other,
+                },
+                2 => OrderUpdate::UpdatePriceAndQuantity {
+                    order_id: *id,
+                    new_price: other,
+                    new_quantity: 5,
+                },
+                _ => OrderUpdate::Replace {
+                    order_id: *id,
+                    price: other,
+                    quantity: 5,
+                    side: Side::Buy,
+                },
+            };
+            CRes::Updated(level.update_order(u).map(|o| o.map(|a| *a)).map_err(|e| e.to_string()))
+        }
         COp::Amend { id, qty } => CRes::Updated(
             level
                 .update_order(OrderUpdate::UpdateQuantity {
